@@ -333,6 +333,40 @@ Proof.
       eexists; (split; [reflexivity|apply in_or_app; left; exact Hev]).
 Qed.
 
+(* ---------- F10: two cached columns that share an upstream function ----------
+   [uses c] are the user functions the value pass of column c executes for an entry.  A request that finds its shard neither in RAM
+   nor on disk runs the value pass of EVERY entry of the shard through the graph of its own column; so a function two columns share
+   runs once per column. *)
+Theorem column_cold_miss_runs_whole_shard col size key keys st r st' ev ks c i :
+  exact_key key -> get_shard keq sorted size key keys = inr (ks, c, i) ->
+  get_hash col key = Some (h col key) -> (forall k, get_hash col k <> None) -> (forall k, get_value col k <> None) ->
+  ram_get req st (h col key) = None -> disk_get deq st (compound (map (h col) ks)) = None ->
+  column_request req deq keq sorted get_hash get_value col size key keys st = (r, st', ev) ->
+  forall k, In k ks -> In (CValue col k) ev.
+Proof.
+  intros HK Hsh G Gall Vall R D. unfold column_request. rewrite G. unfold column_evaluate. rewrite R, Hsh.
+  destruct (hash_loop req keq get_hash col (h col key) key ks) as [rh evh] eqn:L.
+  destruct (hash_loop_ok _ _ _ _ _ HK L) as [[-> ->]|[f ->]].
+  2:{ exfalso. clear -L Gall get_hash_ok HK req_refl. revert evh L. induction ks as [|k t IH]; cbn; intros evh L; [discriminate|].
+      destruct (get_hash col k) as [x|] eqn:G; [|exact (Gall k G)].
+      apply get_hash_ok in G. subst x.
+      destruct (keq k key && negb (req (h col key) (h col k))) eqn:A.
+      { apply andb_prop in A as [A1 A2]. apply HK in A1. subst k. rewrite req_refl in A2. discriminate. }
+      destruct (hash_loop req keq get_hash col (h col key) key t) as [r0 ev0] eqn:L0.
+      destruct r0 as [e|hs]; [|discriminate]. injection L as L _. subst e. exact (IH _ eq_refl). }
+  fold (compound (map (h col) ks)). rewrite D.
+  destruct (value_loop get_value col ks) as [rv evv] eqn:V.
+  destruct (value_loop_ok _ _ _ _ V) as [[-> ->]|[f ->]].
+  2:{ exfalso. clear -V Vall. revert evv V. induction ks as [|k t IH]; cbn; intros evv V; [discriminate|].
+      destruct (get_value col k) as [x|] eqn:G; [|exact (Vall k G)].
+      destruct (value_loop get_value col t) as [r0 ev0] eqn:L0.
+      destruct r0 as [e|vs]; [|discriminate]. injection V as V _. subst e. exact (IH _ eq_refl). }
+  unfold finish. intros H k Hk.
+  assert (ev = CHash col key :: CKeyReq :: CKeysReq :: map (CHash col) ks ++ map (CValue col) ks) as ->.
+  { destruct (pick keq key ks (map (v col) ks) None); injection H as _ _ <-; reflexivity. }
+  right. right. right. apply in_or_app. right. apply in_map. exact Hk.
+Qed.
+
 (* ---------- C07: the order in which `ids` lists the keys does not matter ---------- *)
 Theorem column_request_ids_order col size key keys keys' st :
   (forall l l', Permutation l l' -> sorted l = sorted l') -> Permutation keys keys' ->
